@@ -107,8 +107,17 @@ type Header struct {
 	Metadata   *indexmeta.Meta
 }
 
+// headerFixedLen is the size of the header up to and including the version byte;
+// the metadata key-value pairs follow.
+const headerFixedLen = 8 + 4 + 8 + 4 + 1
+
 // Load checks the Magic sequence and loads the header fields.
 func (h *Header) Load(buf []byte) error {
+	// The fixed part of the header must be present before any field is read:
+	// magic (8) + length (4) + value size (8) + number of buckets (4) + version (1).
+	if len(buf) < headerFixedLen {
+		return fmt.Errorf("invalid header: got %d bytes, need at least %d", len(buf), headerFixedLen)
+	}
 	// Use a magic byte sequence to bail fast when user passes a corrupted/unrelated stream.
 	if *(*[8]byte)(buf[:8]) != Magic {
 		return fmt.Errorf("not a radiance compactindex file")
